@@ -78,9 +78,9 @@ CHECKS = {
    note="Only clients that go away are generated. Needs loopback TCP and Unix sockets.",
    technique="fault-sequence enumeration (exhaustive to length 2, sampled beyond) with a liveness probe oracle"),
  "C01": dict(level="exploration", design="DESIGN.md §4 C01",
-   text="Discrete-event simulation of networks of real PtpInstances (2-4 nodes quick, 2-7 thorough; point-to-point links, shared segments, rings, two ports of one instance on one segment) with generated rankings (incl. clockClass < 128 and slave-only nodes), delays, jitter, BMCA phases and event tie-breaks, followed by one generated fault (cut / cut-and-restore an endpoint, silence a node, change a node's quality, toggle slave-only). The predicates of the statement (best node is the only grandmaster; no instance with clockClass < 128 has a slave port; every reachable slave-capable node has exactly one slave port whose parent chain reaches it with stepsRemoved decreasing by one; one master port per segment; isolated ports master; no stale slave) must hold from some point inside an explicit bound onwards, and every port state and the hierarchy part of all data sets must stay constant over the following 12 announce intervals, evaluated at every BMCA of every node.",
+   text="Discrete-event simulation of networks of real PtpInstances (2-4 nodes quick, 2-7 thorough; point-to-point links, shared segments, rings, two ports of one instance on one segment) with generated rankings (incl. clockClass < 128 and slave-only nodes), delays, jitter, BMCA phases and event tie-breaks, followed by one generated fault (cut / cut-and-restore an endpoint, silence a node, change a node's quality, toggle slave-only). The predicates of the statement (best node is the only grandmaster; no instance with clockClass < 128 has a slave port; every reachable slave-capable node has exactly one slave port whose parent chain reaches it with stepsRemoved decreasing by one; one master port per segment; isolated ports master; no stale slave) must hold from some point inside an explicit bound onwards, and every port state and the hierarchy part of all data sets must stay constant over the following 12 announce intervals, evaluated at every BMCA of every node. Plus an end-to-end part: networks of 2-4 real statime daemon processes (bridges and veth pairs in a private network namespace, real time) started, faulted (kill, cut, cut-and-restore) and judged by the same predicates on what they publish on their observation sockets.",
    note="Liveness as bounded-horizon safety with explicit bounds: (2*receiptTimeout+7)*(diameter+2) announce intervals, plus 510 intervals when the post-fault topology contains a cycle (IEEE 1588 count-to-infinity of a lost grandmaster's data set without path trace). Slave-only nodes are generated with clockClass 255 and a priority1 behind all master-capable nodes (a slave-only instance whose own data set wins the comparison never synchronises; the daemon does not enforce class 255 - noted in DESIGN.md).",
-   technique="property-based testing over generated topologies/rankings/schedules/faults with a discrete-event simulator and graph-based oracle"),
+   technique="property-based testing over generated topologies/rankings/schedules/faults with a discrete-event simulator and graph-based oracle + generated networks of real daemon processes under the same oracle"),
  "C02": dict(level="exploration", design="DESIGN.md §4 C02",
    text="Closed-loop simulation with the real slave port and the real KalmanFilter steering a simulated clock whose readings produce all of the slave's timestamps (so corrections feed back), against a synthetic one-step/two-step grandmaster; generated initial offset (+-10 s), oscillator error (+-150 ppm), symmetric delay (1-400 us), jitter (0-20 us), sync/delay intervals (2^-3..2^1 s), message interleavings (Follow_Up before Sync, transmit timestamps prompt / late / mixed), grandmaster present from the start or appearing only after the port has become master through its receipt timeout. Oracle: |true offset| <= 0.5 us + 3 J from some time <= 120 s + 1000 x max(sync, delay interval) until the horizon, no step after that time, all frequency commands finite and within +-400 ppm.",
    note="The two constants are a stated tolerance calibrated once on the unchanged tree (10^4 runs: worst settle time 0.40 of the bound, worst residual 0.17 of the bound); degradations smaller than that head-room are not detected. No wall clock is involved.",
